@@ -33,6 +33,7 @@ Section Proofs.
   Notation put_obj := (put_obj fmt encS c).
   Notation finish_stream := (finish_stream fmt_sd encS encB fenc c).
   Notation flush_after := (flush_after fmt fmt_sd encS encB fenc c).
+  Notation flush_objs := (flush_objs fmt encS c).
   Notation close_stream := (close_stream fmt fmt_sd encS encB fenc c).
   Notation put := (put fmt fmt_sd encS encB fenc c).
   Notation put_all := (put_all fmt fmt_sd encS encB fenc c).
@@ -130,19 +131,12 @@ Section Proofs.
       + inversion Hk; subst. eapply ext_trans; [exact E1|]. eapply ext_trans; [apply ext_emit|]. apply ext_same; reflexivity.
   Qed.
 
-  Lemma flush_after_ext l : forall st st', flush_after l st = Ok st' -> ext st st'.
+  Lemma flush_objs_ext l : forall st st', flush_objs l st = Ok st' -> ext st st'.
   Proof.
     induction l as [|[[n g] o] l IH]; intros st st' H; cbn in H.
     - inversion H; subst. apply ext_same; reflexivity.
-    - destruct o.
-      + binv H. eapply ext_trans; [eapply put_obj_ext; eassumption|]. eapply IH; eassumption.
-      + binv H. binv Hk. discriminate.
-  Qed.
-
-  Lemma close_stream_ext big st st' : close_stream big st = Ok st' -> ext st st'.
-  Proof.
-    unfold Writer.close_stream. intros H. binv H.
-    eapply ext_trans; [eapply finish_stream_ext; eassumption|]. eapply flush_after_ext; eassumption.
+    - destruct o; [|discriminate].
+      binv H. eapply ext_trans; [eapply put_obj_ext; eassumption|]. eapply IH; eassumption.
   Qed.
 
   Lemma put_stream_now_ext n g d data st st' : put_stream_now n g d data st = Ok st' -> ext st st'.
@@ -150,6 +144,25 @@ Section Proofs.
     unfold put_stream_now. intros H. binv H.
     eapply ext_trans; [eapply open_stream_ext; eassumption|].
     destruct (strm a); [|discriminate]. inversion Hk; subst. apply ext_same; reflexivity.
+  Qed.
+
+  Lemma flush_after_ext l : forall st st', flush_after l st = Ok st' -> ext st st'.
+  Proof.
+    induction l as [|[[n g] o] l IH]; intros st st' H; cbn in H.
+    - inversion H; subst. apply ext_refl.
+    - destruct o.
+      + binv H. eapply ext_trans; [eapply put_obj_ext; eassumption|]. eapply IH; eassumption.
+      + binv H. binv Hk. binv Hk0.
+        eapply ext_trans; [eapply put_stream_now_ext; eassumption|].
+        eapply ext_trans; [eapply finish_stream_ext; eassumption|].
+        eapply ext_trans; [eapply flush_objs_ext; eassumption|]. eapply IH; eassumption.
+  Qed.
+
+  Lemma close_stream_ext big st st' : close_stream big st = Ok st' -> ext st st'.
+  Proof.
+    unfold Writer.close_stream. intros H. binv H.
+    eapply ext_trans; [eapply finish_stream_ext; eassumption|].
+    eapply ext_trans; [|eapply flush_after_ext; eassumption]. apply ext_same; reflexivity.
   Qed.
 
   Lemma put_ext n g o big st st' : put n g o big st = Ok st' -> ext st st'.
